@@ -21,6 +21,7 @@ inside impl/trait
   //@inherit SRC :: Trait :: name   (impl blocks) default method `name` of trait `Trait` that this impl inherits is
                            instantiated here from the trait's text and put under contract (sections as for //@fn); R13
   //@noassoc               do not copy associated consts/types
+  //@drop a b c            functions of the block that are emitted elsewhere (another block of the same unit)
   //@hoist NAME => FREE    (impl blocks) R14: the initialiser of associated const NAME is moved verbatim into a free
                            `pub const FREE` emitted before the block; the associated const becomes `= FREE`
                            (Verus rejects non-simple initialisers of trait consts and prescribes this form)
@@ -566,6 +567,8 @@ def build(vc_path, repo_root, defines=None, canary=False, known_drops=None, stri
         for sub in inner:
             if sub.kind == "fn":
                 spec = b["fns"].get(sub.name)
+                if spec is None and sub.name in b.get("drop", ()):
+                    continue
                 if spec is None:
                     key = ("%s::%s" % (where, sub.name)).replace(" ", "")
                     if known_drops is None or key in known_drops:
@@ -745,6 +748,10 @@ def build(vc_path, repo_root, defines=None, canary=False, known_drops=None, stri
             continue
         if word == "noassoc":
             block["noassoc"] = True
+            continue
+        if word == "drop":
+            # functions of this block that are deliberately not emitted here (they are under contract in another block / unit)
+            block.setdefault("drop", set()).update(rest.split())
             continue
         if word == "hoist":
             hn, hnew = [x.strip() for x in rest.split("=>", 1)]
